@@ -91,131 +91,533 @@ theorem fieldVal_delK_ne (T : Ty) (m : YVal) (k k' : Key) (h : k ≠ k') :
     fieldVal T (delK m k) k' = fieldVal T m k' := by
   simp [fieldVal, getK_delK_ne _ _ _ h]
 
+theorem isEmptyObj_erEnts (o : Oracles) (es) : isEmptyObj (.obj (erEnts o es)) = isEmptyObj (.obj es) := by
+  rw [← er_obj, isEmptyObj_er]
+
 macro "sim_simp" : tactic => `(tactic| (
   simp (config := {decide := true}) [Sim, typeErr, bail, setK, delK, putK, erEnts_insert, erEnts_erase, er_idem,
-    erEnts_idem, erList_idem, intOf, bytesOf, boolOf, isEmptyObj, zeroOf,
+    erEnts_idem, erList_idem, intOf, bytesOf, boolOf, isEmptyObj_erEnts, isEmptyObj, zeroOf,
     v14Runtime, v14Clients, v15Qlog, v16Stats, safeSearchDefault, scheduleDefault, v25Pprof] at *))
 
+macro "sim_pre" : tactic => `(tactic| (
+  simp (config := {decide := true}) [typeErr, bail, setK, delK, putK, intOf, bytesOf, boolOf, isEmptyObj_erEnts, isEmptyObj, zeroOf,
+    v14Runtime, v14Clients, v15Qlog, v16Stats, safeSearchDefault, scheduleDefault, v25Pprof]))
+
 macro "sim_fin" : tactic => `(tactic| (
-  (try sim_simp) <;> (repeat' split) <;> (try sim_simp) <;> (try (simp_all (config := {decide := true})))))
+  (try sim_pre) <;> (repeat' split) <;> (try sim_simp) <;> (try rfl) <;> (try (simp_all (config := {decide := true}))) <;>
+  (try ((repeat' split) <;> (first | rfl | simp_all (config := {decide := true}))))))
 
 macro "sim_open" : tactic => `(tactic| (
   simp only [migrateTo1, migrateTo2, migrateTo3, migrateTo5, migrateTo8, migrateTo9, migrateTo11, migrateTo12,
     migrateTo13, migrateTo14, migrateTo16, migrateTo17, migrateTo18, migrateTo20, migrateTo21, migrateTo23,
     migrateTo25, migrateTo28, stamp_obj, stamp_er_obj, moveVal, moveSelf]))
 
-/-- Rewrite the reads of the re-read document into the re-read results of the reads. -/
-macro "sim_rw" : tactic => `(tactic| (
+/-- Rewrite the reads of the re-read document into the re-read results of the reads;
+the arguments are the conditional rewrites (string and sequence reads) of the step. -/
+macro "sim_rw" "[" ls:Lean.Parser.Tactic.simpLemma,* "]" : tactic => `(tactic| (
   simp (config := {decide := true}) only [setK_er_obj, setK_obj_putK, fieldVal_putK_ne, fieldVal_delK_ne, ne_eq,
     not_false_eq_true, fieldVal_er_obj, fieldVal_er_int, fieldVal_er_bool, fieldVal_er_any,
-    FV.er_v, FV.er_ok, FV.er_err, *]))
+    FV.er_v, FV.er_ok, FV.er_err, $ls,*]))
 
-macro "sim_go" : tactic => `(tactic| (
-  (repeat' ((try sim_rw) <;> fv_split)) <;> (try sim_rw) <;> sim_fin))
+macro "sim_go" "[" ls:Lean.Parser.Tactic.simpLemma,* "]" : tactic => `(tactic| (
+  (repeat' ((try sim_rw [$ls,*]) <;> fv_split)) <;> (try sim_rw [$ls,*]) <;> sim_fin))
 
 theorem step1_sim (o : Oracles) (es) (h : inv o (.obj es) = true) :
     Sim o (migrateTo1 (.obj es)) (migrateTo1 (er o (.obj es))) := by
   sim_open
-  sim_go
+  sim_go []
 
 theorem step2_sim (o : Oracles) (es) (h : inv o (.obj es) = true) :
     Sim o (migrateTo2 (.obj es)) (migrateTo2 (er o (.obj es))) := by
   sim_open
-  sim_go
+  sim_go []
 
 theorem step3_sim (o : Oracles) (es) (h : inv o (.obj es) = true) :
     Sim o (migrateTo3 (.obj es)) (migrateTo3 (er o (.obj es))) := by
   sim_open
-  sim_go
+  sim_go []
 
 theorem step5_sim (o : Oracles) (es) (h : inv o (.obj es) = true) :
     Sim o (migrateTo5 (.obj es)) (migrateTo5 (er o (.obj es))) := by
   have hD := inv_stamp h ((5 : Nat) : Int)
-  have r0 := fieldVal_er_clean o .str _ kAuthName (top_read hD (by decide))
-  have r1 := fieldVal_er_clean o .str _ kAuthPass (top_read hD (by decide))
   sim_open
-  sim_go
+  sim_go [fieldVal_er_clean o .str _ kAuthName (top_read hD (by decide)),
+    fieldVal_er_clean o .str _ kAuthPass (top_read hD (by decide))]
 
 theorem step8_sim (o : Oracles) (es) (h : inv o (.obj es) = true) :
     Sim o (migrateTo8 (.obj es)) (migrateTo8 (er o (.obj es))) := by
   have hD := inv_stamp h ((8 : Nat) : Int)
-  have r0 := fieldVal_er_clean o .str _ kBindHost (sub_read hD .obj kDns (by decide))
   sim_open
-  sim_go
+  sim_go [fieldVal_er_clean o .str _ kBindHost (sub_read hD .obj kDns (by decide))]
 
 theorem step9_sim (o : Oracles) (es) (h : inv o (.obj es) = true) :
     Sim o (migrateTo9 (.obj es)) (migrateTo9 (er o (.obj es))) := by
   have hD := inv_stamp h ((9 : Nat) : Int)
-  have r0 := fieldVal_er_clean o .str _ kAutohostTld (sub_read hD .obj kDns (by decide))
   sim_open
-  sim_go
+  sim_go [fieldVal_er_clean o .str _ kAutohostTld (sub_read hD .obj kDns (by decide))]
 
 theorem step11_sim (o : Oracles) (es) (h : inv o (.obj es) = true) :
     Sim o (migrateTo11 (.obj es)) (migrateTo11 (er o (.obj es))) := by
   sim_open
-  sim_go
+  sim_go []
 
 theorem step12_sim (o : Oracles) (es) (h : inv o (.obj es) = true) :
     Sim o (migrateTo12 (.obj es)) (migrateTo12 (er o (.obj es))) := by
   sim_open
-  sim_go
+  sim_go []
 
 theorem step13_sim (o : Oracles) (es) (h : inv o (.obj es) = true) :
     Sim o (migrateTo13 (.obj es)) (migrateTo13 (er o (.obj es))) := by
   have hD := inv_stamp h ((13 : Nat) : Int)
-  have r0 := fieldVal_er_clean o .str _ kLocalDomainName (sub_read hD .obj kDns (by decide))
   sim_open
-  sim_go
+  sim_go [fieldVal_er_clean o .str _ kLocalDomainName (sub_read hD .obj kDns (by decide))]
 
 theorem step14_sim (o : Oracles) (es) (h : inv o (.obj es) = true) :
     Sim o (migrateTo14 (.obj es)) (migrateTo14 (er o (.obj es))) := by
   have hD := inv_stamp h ((14 : Nat) : Int)
-  have r0 := fieldVal_er_clean o .arr _ kClients (top_read hD (by decide))
   sim_open
-  sim_go
+  sim_go [fieldVal_er_clean o .arr _ kClients (top_read hD (by decide))]
 
 theorem step16_sim (o : Oracles) (es) (h : inv o (.obj es) = true) :
     Sim o (migrateTo16 (.obj es)) (migrateTo16 (er o (.obj es))) := by
   sim_open
-  sim_go
+  sim_go []
 
 theorem step17_sim (o : Oracles) (es) (h : inv o (.obj es) = true) :
     Sim o (migrateTo17 (.obj es)) (migrateTo17 (er o (.obj es))) := by
   sim_open
-  sim_go
+  sim_go []
 
 theorem step18_sim (o : Oracles) (es) (h : inv o (.obj es) = true) :
     Sim o (migrateTo18 (.obj es)) (migrateTo18 (er o (.obj es))) := by
   sim_open
-  sim_go
+  sim_go []
 
 theorem step20_sim (o : Oracles) (es) (h : inv o (.obj es) = true) :
     Sim o (migrateTo20 (.obj es)) (migrateTo20 (er o (.obj es))) := by
   sim_open
-  sim_go
+  sim_go []
 
 theorem step21_sim (o : Oracles) (es) (h : inv o (.obj es) = true) :
     Sim o (migrateTo21 (.obj es)) (migrateTo21 (er o (.obj es))) := by
   have hD := inv_stamp h ((21 : Nat) : Int)
-  have r0 := fieldVal_er_clean o .arr _ kBlockedServices (sub_read hD .obj kDns (by decide))
   sim_open
-  sim_go
+  sim_go [fieldVal_er_clean o .arr _ kBlockedServices (sub_read hD .obj kDns (by decide))]
 
 theorem step23_sim (o : Oracles) (es) (h : inv o (.obj es) = true) :
     Sim o (migrateTo23 o (.obj es)) (migrateTo23 o (er o (.obj es))) := by
   have hD := inv_stamp h ((23 : Nat) : Int)
-  have r0 := fieldVal_er_clean o .str _ kBindHost (top_read hD (by decide))
   sim_open
-  sim_go
+  sim_go [fieldVal_er_clean o .str _ kBindHost (top_read hD (by decide))]
 
 theorem step25_sim (o : Oracles) (es) (h : inv o (.obj es) = true) :
     Sim o (migrateTo25 (.obj es)) (migrateTo25 (er o (.obj es))) := by
   sim_open
-  sim_go
+  sim_go []
 
 theorem step28_sim (o : Oracles) (es) (h : inv o (.obj es) = true) :
     Sim o (migrateTo28 (.obj es)) (migrateTo28 (er o (.obj es))) := by
   sim_open
-  sim_go
+  sim_go []
+
+/-! ### `errors.Join(moveVal…)` on the re-read document -/
+
+def erT (o : Oracles) (t : YVal × YVal × Bool) : YVal × YVal × Bool := (er o t.1, er o t.2.1, t.2.2)
+
+theorem setK_er (o : Oracles) (m : YVal) (k : Key) (v : YVal) :
+    setK (er o m) k (er o v) = (setK m k v).map (er o) := by
+  cases m <;> simp [setK, Except.map, erEnts_insert]
+
+theorem moveVal_er (o : Oracles) (T : Ty) (src dst : YVal) (sk dk : Key)
+    (h : T = .str ∨ T = .arr → ∀ c, getK src sk = some c → clean o c = true) :
+    moveVal T (er o src) (er o dst) sk dk = (moveVal T src dst sk dk).map (erT o) := by
+  unfold moveVal
+  rw [fieldVal_er o T src sk (fun hT c hc => isTypedLeaf_of_clean o c (h hT c hc))]
+  simp only [FV.er_ok, FV.er_v, FV.er_err, setK_er]
+  cases hok : (fieldVal T src sk).ok
+  · simp [Except.map, erT]
+  · cases hs : setK dst dk (fieldVal T src sk).v <;> simp [Except.map, erT, er_delK]
+
+theorem lookup_erase_some {k k' : Key} {c : YVal} : ∀ {es : List (Key × YVal)},
+    lookup k' (erase k es) = some c → lookup k' es = some c
+  | [], h => by simp [erase, lookup] at h
+  | (k'', v) :: es, h => by
+    by_cases hk : k'' = k
+    · simp only [erase, hk, if_true] at h
+      have ih := lookup_erase_some h
+      by_cases hk' : k = k'
+      · subst hk'
+        exfalso
+        clear ih
+        induction es with
+        | nil => simp [erase, lookup] at h
+        | cons e es ih2 =>
+          obtain ⟨a, b⟩ := e
+          by_cases ha : a = k <;> simp [erase, lookup, ha] at h <;> exact ih2 h
+      · simp [lookup, hk, hk', ih]
+    · simp only [erase, hk, if_false, lookup] at h ⊢
+      by_cases hk' : k'' = k'
+      · simpa [hk'] using h
+      · simp only [hk', if_false] at h ⊢
+        exact lookup_erase_some h
+
+theorem getK_delK_some {m : YVal} {k k' : Key} {c : YVal} (h : getK (delK m k) k' = some c) : getK m k' = some c := by
+  cases m <;> simp [delK, getK] at h ⊢
+  exact lookup_erase_some h
+
+/-- Does the move read a string or a sequence? -/
+def strOrArr (T : Ty) : Bool := T == .str || T == .arr
+
+theorem moves_er (o : Oracles) : ∀ (ms : List (Ty × Key × Key)) (src dst : YVal),
+    (∀ m ∈ ms, strOrArr m.1 = true → ∀ c, getK src m.2.1 = some c → clean o c = true) →
+    moves ms (er o src) (er o dst) = (moves ms src dst).map (erT o)
+  | [], src, dst, _ => by simp [moves, Except.map, erT]
+  | (T, sk, dk) :: rest, src, dst, h => by
+    unfold moves
+    rw [moveVal_er o T src dst sk dk (fun hT c hc => h (T, sk, dk) (by simp)
+      (by rcases hT with rfl | rfl <;> simp [strOrArr]) c hc)]
+    cases hm : moveVal T src dst sk dk with
+    | error f => simp [Except.map]
+    | ok t =>
+      obtain ⟨s, d, e⟩ := t
+      have hs : ∀ m ∈ rest, strOrArr m.1 = true → ∀ c, getK s m.2.1 = some c → clean o c = true := by
+        intro m hm' hT c hc
+        apply h m (by simp [hm']) hT c
+        -- `s` is `src` or `src` without `sk`
+        unfold moveVal at hm
+        dsimp only at hm
+        split at hm
+        · split at hm
+          · simp at hm; rw [← hm.1] at hc; exact getK_delK_some hc
+          · simp at hm
+        · simp at hm; rw [← hm.1] at hc; exact hc
+      simp only [Except.map, erT]
+      rw [moves_er o rest s d hs]
+      cases moves rest s d with
+      | error f => simp [Except.map]
+      | ok t' => obtain ⟨s', d', e'⟩ := t'; simp [Except.map, erT]
+
+/-- The same with a destination that is read back as itself (a literal). -/
+theorem moves_er' (o : Oracles) (ms : List (Ty × Key × Key)) (src dst : YVal) (hd : er o dst = dst)
+    (h : ∀ m ∈ ms, strOrArr m.1 = true → ∀ c, getK src m.2.1 = some c → clean o c = true) :
+    moves ms (er o src) dst = (moves ms src dst).map (erT o) := by
+  have := moves_er o ms src dst h
+  rwa [hd] at this
+
+/-- The condition of `moves_er` from the invariant of the section the moves read. -/
+theorem moves_cond {o : Oracles} {ex : List Key} {src : YVal} (hs : subOK o ex src = true)
+    (ms : List (Ty × Key × Key)) (hk : ∀ m ∈ ms, strOrArr m.1 = true → m.2.1 ∉ ex) :
+    ∀ m ∈ ms, strOrArr m.1 = true → ∀ c, getK src m.2.1 = some c → clean o c = true :=
+  fun m hm hT _ hc => sub_kid hs (hk m hm hT) hc
+
+theorem step7_sim (o : Oracles) (es) (h : inv o (.obj es) = true) :
+    Sim o (migrateTo7 (.obj es)) (migrateTo7 (er o (.obj es))) := by
+  have hD := inv_stamp h ((7 : Nat) : Int)
+  have hk := fv_sub hD .obj kDhcp
+  simp only [migrateTo7, stamp_obj, stamp_er_obj]
+  sim_rw [moves_er' o v7Moves _ (.obj []) (by simp) (moves_cond hk v7Moves (by decide))]
+  fv_split
+  · rename_i w
+    obtain ⟨s', d', e, hm, _, ho⟩ := moves_spec v7Moves (.obj w) []
+    obtain ⟨ss, rfl⟩ := (ho trivial).elim
+    simp only [hm, Except.map, erT]
+    sim_fin
+  · sim_fin
+  · sim_fin
+
+theorem moves_cond_top {o : Oracles} {D : YVal} (hD : inv o D = true)
+    (ms : List (Ty × Key × Key)) (hk : ∀ m ∈ ms, strOrArr m.1 = true → exc m.2.1 = []) :
+    ∀ m ∈ ms, strOrArr m.1 = true → ∀ c, getK D m.2.1 = some c → clean o c = true :=
+  fun m hm hT c hc => top_read hD (hk m hm hT) c hc
+
+theorem step15_sim (o : Oracles) (es) (h : inv o (.obj es) = true) :
+    Sim o (migrateTo15 (.obj es)) (migrateTo15 (er o (.obj es))) := by
+  have hD := inv_stamp h ((15 : Nat) : Int)
+  have hk := fv_sub hD .obj kDns
+  simp only [migrateTo15, stamp_obj, stamp_er_obj]
+  sim_rw [moves_er' o v15Moves _ v15Qlog (by simp [v15Qlog]) (moves_cond hk v15Moves (by decide))]
+  fv_split
+  · rename_i w
+    obtain ⟨s', d', e, hm, _, ho⟩ := moves_spec v15Moves (.obj w)
+      [(kIgnored, .arr []), (kEnabled, .bool true), (kFileEnabled, .bool true),
+        (kInterval, .str s2160h), (kSizeMemory, .int 1000)]
+    obtain ⟨ss, rfl⟩ := (ho trivial).elim
+    simp only [v15Qlog] at *
+    simp only [hm, Except.map, erT]
+    sim_fin
+  · sim_fin
+  · sim_fin
+
+theorem step24_sim (o : Oracles) (es) (h : inv o (.obj es) = true) :
+    Sim o (migrateTo24 (.obj es)) (migrateTo24 (er o (.obj es))) := by
+  have hD := inv_stamp h ((24 : Nat) : Int)
+  simp only [migrateTo24, stamp_obj, stamp_er_obj]
+  sim_rw [moves_er' o v24Moves _ (.obj []) (by simp) (moves_cond_top hD v24Moves (by decide))]
+  obtain ⟨s', d', e, hm, _, ho⟩ := moves_spec v24Moves (.obj (insert kSchemaVersion (.int ((24 : Nat) : Int)) es)) []
+  obtain ⟨ss, rfl⟩ := (ho trivial).elim
+  simp only [hm, Except.map, erT]
+  cases d' <;> sim_fin
+
+theorem step26_sim (o : Oracles) (es) (h : inv o (.obj es) = true) :
+    Sim o (migrateTo26 (.obj es)) (migrateTo26 (er o (.obj es))) := by
+  have hD := inv_stamp h ((26 : Nat) : Int)
+  have hk := fv_sub hD .obj kDns
+  simp only [migrateTo26, stamp_obj, stamp_er_obj]
+  sim_rw [moves_er' o v26Moves _ (.obj []) (by simp) (moves_cond hk v26Moves (by decide))]
+  fv_split
+  · rename_i w
+    obtain ⟨s', d', e, hm, _, ho⟩ := moves_spec v26Moves (.obj w) []
+    obtain ⟨ss, rfl⟩ := (ho trivial).elim
+    simp only [hm, Except.map, erT]
+    cases d' <;> sim_fin
+  · sim_fin
+  · sim_fin
+
+/-! ### steps that loop over a clean sequence: the re-read side runs the same loop -/
+
+theorem getK_er_top {o : Oracles} {D : YVal} (hD : inv o D = true) {k : Key} (hk : exc k = []) :
+    getK (er o D) k = getK D k := by
+  rw [getK_er]
+  cases hg : getK D k with
+  | none => rfl
+  | some c => simp [er_of_clean o c (top_read hD hk c hg)]
+
+theorem step4_sim (o : Oracles) (es) (h : inv o (.obj es) = true) :
+    Sim o (migrateTo4 (.obj es)) (migrateTo4 (er o (.obj es))) := by
+  have hD := inv_stamp h ((4 : Nat) : Int)
+  simp only [migrateTo4, stamp_obj, stamp_er_obj, getK_er_top hD (k := kClients) (by decide)]
+  split
+  · rename_i xs _
+    cases hm : mapM' v4Client xs <;> sim_fin
+  · sim_fin
+
+theorem step6_sim (o : Oracles) (es) (h : inv o (.obj es) = true) :
+    Sim o (migrateTo6 (.obj es)) (migrateTo6 (er o (.obj es))) := by
+  have hD := inv_stamp h ((6 : Nat) : Int)
+  simp only [migrateTo6, stamp_obj, stamp_er_obj]
+  sim_rw [fieldVal_er_clean o .arr _ kClients (top_read hD (by decide)), er_fv_top hD .arr (k := kClients) (by decide)]
+  fv_split
+  · rename_i xs
+    cases xs with
+    | nil => sim_fin
+    | cons x xs => cases hm : mapM' v6Client (x :: xs) <;> sim_fin
+  · sim_fin
+  · sim_fin
+
+theorem step19_sim (o : Oracles) (es) (h : inv o (.obj es) = true) :
+    Sim o (migrateTo19 (.obj es)) (migrateTo19 (er o (.obj es))) := by
+  have hD := inv_stamp h ((19 : Nat) : Int)
+  simp only [migrateTo19, stamp_obj, stamp_er_obj]
+  sim_rw [er_fv_top hD .obj (k := kClients) (by decide)]
+  fv_split
+  · split
+    · rename_i xs _
+      cases hm : mapM' v19Client xs <;> sim_fin
+    · sim_fin
+  · sim_fin
+  · sim_fin
+
+theorem step22_sim (o : Oracles) (es) (h : inv o (.obj es) = true) :
+    Sim o (migrateTo22 (.obj es)) (migrateTo22 (er o (.obj es))) := by
+  have hD := inv_stamp h ((22 : Nat) : Int)
+  simp only [migrateTo22, stamp_obj, stamp_er_obj]
+  sim_rw [er_fv_top hD .obj (k := kClients) (by decide)]
+  fv_split
+  · fv_split
+    · rename_i xs
+      cases xs with
+      | nil => sim_fin
+      | cons x xs => cases hm : mapM' v22Client (x :: xs) <;> sim_fin
+    · sim_fin
+    · sim_fin
+  · sim_fin
+  · sim_fin
+
+theorem step29_sim (o : Oracles) (es) (h : inv o (.obj es) = true) :
+    Sim o (migrateTo29 o (.obj es)) (migrateTo29 o (er o (.obj es))) := by
+  have hD := inv_stamp h ((29 : Nat) : Int)
+  simp only [migrateTo29, stamp_obj, stamp_er_obj]
+  sim_rw [fieldVal_er_clean o .arr _ kFilters (top_read hD (by decide)), er_fv_top hD .arr (k := kFilters) (by decide)]
+  fv_split
+  · rename_i xs
+    cases hp : v29Paths xs with
+    | error e => sim_fin
+    | ok ps => dsimp only; fv_split <;> sim_fin
+  · sim_fin
+  · sim_fin
+
+/-! ### v10 and v27: two blocks in sequence, each exact on the re-read document -/
+
+theorem v10Ups_clean (o : Oracles) : ∀ (xs ys : List YVal), mapM' (v10Ups o) xs = .ok ys → cleanList o ys = true
+  | [], ys, h => by simp [mapM'] at h; subst h; rfl
+  | x :: xs, ys, h => by
+    unfold mapM' at h
+    cases hx : v10Ups o x with
+    | error e => simp [hx] at h
+    | ok y =>
+      cases hxs : mapM' (v10Ups o) xs with
+      | error e => simp [hx, hxs] at h
+      | ok ys' =>
+        simp [hx, hxs] at h; subst h
+        have hy : clean o y = true := by
+          unfold v10Ups at hx
+          cases x <;> simp [typeErr] at hx
+          split at hx <;> simp at hx
+          subst hx; rfl
+        simp [cleanList, hy, v10Ups_clean o xs ys' hxs]
+
+theorem v10Field_er {o : Oracles} {ex : List Key} {w : List (Key × YVal)} (hk : subOK o ex (.obj w) = true)
+    {k : Key} (hx : k ∉ ex) :
+    v10Field o (er o (.obj w)) k = (v10Field o (.obj w) k).map (er o) := by
+  have hc := fv_kid hk hx .arr
+  unfold v10Field
+  simp only [fieldVal_er_clean o .arr _ k (fun c hg => sub_kid hk hx hg), FV.er_v, FV.er_ok, FV.er_err,
+    er_of_clean o _ hc]
+  fv_split
+  · rename_i xs
+    cases hm : mapM' (v10Ups o) xs with
+    | error e => simp [Except.map]
+    | ok ys =>
+      have := erList_of_clean o ys (v10Ups_clean o xs ys hm)
+      simp [Except.map, setK, erEnts_insert, this]
+  · simp [Except.map]
+  · simp [Except.map, typeErr]
+
+/-- A block of v10 keeps the section a map with Go-typed values only where they were. -/
+theorem v10Field_sub {o : Oracles} {ex : List Key} {w : List (Key × YVal)} (hk : subOK o ex (.obj w) = true)
+    {k : Key} (hx : k ∉ ex) {d : YVal} (h : v10Field o (.obj w) k = .ok d) :
+    ∃ w', d = .obj w' ∧ subOK o ex (.obj w') = true := by
+  unfold v10Field at h
+  dsimp only at h
+  split at h
+  · simp [typeErr] at h
+  · split at h
+    · split at h
+      · rename_i xs _
+        cases hm : mapM' (v10Ups o) xs with
+        | error e => simp [hm] at h
+        | ok ys =>
+          simp [hm, setK] at h
+          refine ⟨_, h.symm, ?_⟩
+          simp only [subOK, List.all_eq_true] at hk ⊢
+          intro e he
+          rcases mem_insert he with rfl | he'
+          · simp [hx, clean, v10Ups_clean o xs ys hm]
+          · exact hk e he'
+      · simp at h
+    · simp at h; exact ⟨w, h.symm, hk⟩
+
+theorem step10_sim (o : Oracles) (es) (h : inv o (.obj es) = true) :
+    Sim o (migrateTo10 o (.obj es)) (migrateTo10 o (er o (.obj es))) := by
+  have hD := inv_stamp h ((10 : Nat) : Int)
+  have hk := fv_sub hD .obj kDns
+  simp only [migrateTo10, stamp_obj, stamp_er_obj]
+  sim_rw []
+  fv_split
+  · rename_i w
+    rw [v10Field_er hk (by decide)]
+    cases h1 : v10Field o (.obj w) kUpstreamDns with
+    | error e => simp [Except.map, Sim]
+    | ok d1 =>
+      obtain ⟨w1, rfl, hk1⟩ := v10Field_sub hk (by decide) h1
+      simp only [Except.map]
+      rw [v10Field_er hk1 (by decide)]
+      cases h2 : v10Field o (.obj w1) kLocalPtrUpstreams with
+      | error e => simp [Except.map, Sim]
+      | ok d2 => simp [Except.map, Sim, er_putK, er_idem, erEnts_idem]
+  · sim_fin
+  · sim_fin
+
+theorem getK_er_kid {o : Oracles} {ex : List Key} {m : YVal} (hk : subOK o ex m = true) {k : Key} (hx : k ∉ ex) :
+    getK (er o m) k = getK m k := by
+  rw [getK_er]
+  cases hg : getK m k with
+  | none => rfl
+  | some c => simp [er_of_clean o c (sub_kid hk hx hg)]
+
+theorem clean_v27Host (o : Oracles) (x : YVal) (h : clean o x = true) : clean o (v27Host x) = true := by
+  unfold v27Host
+  cases x <;> simp_all
+  split <;> simp [clean]
+
+theorem cleanList_v27Host (o : Oracles) : ∀ xs, cleanList o xs = true → cleanList o (xs.map v27Host) = true
+  | [], _ => rfl
+  | x :: xs, h => by
+    simp [cleanList] at h ⊢
+    exact ⟨clean_v27Host o x h.1, cleanList_v27Host o xs h.2⟩
+
+theorem subOK_insert {o : Oracles} {ex : List Key} {ws : List (Key × YVal)} {k : Key} {v : YVal}
+    (h : subOK o ex (.obj ws) = true) (hv : (if k ∈ ex then excOK o v else clean o v) = true) :
+    subOK o ex (.obj (insert k v ws)) = true := by
+  simp only [subOK, List.all_eq_true] at h ⊢
+  intro e he
+  rcases mem_insert he with rfl | he'
+  · exact hv
+  · exact h e he'
+
+theorem subOK_erase {o : Oracles} {ex : List Key} {ws : List (Key × YVal)} {k : Key}
+    (h : subOK o ex (.obj ws) = true) : subOK o ex (.obj (erase k ws)) = true := by
+  simp only [subOK, List.all_eq_true] at h ⊢
+  exact fun e he => h e (mem_erase he)
+
+theorem replaceDot_er {o : Oracles} {es : List (Key × YVal)} (hD : inv o (.obj es) = true) (key : Key)
+    (hx : kIgnored ∉ exc key) :
+    replaceDot (er o (.obj es)) key = (replaceDot (.obj es) key).map (er o) := by
+  have hk := fv_sub hD .obj key
+  unfold replaceDot
+  simp only [fieldVal_er_obj, FV.er_v, FV.er_ok, FV.er_err,
+    fieldVal_er_clean o .arr _ kIgnored (fun c hg => sub_kid hk hx hg), getK_er_kid hk hx]
+  fv_split
+  · rename_i w
+    fv_split
+    · split
+      · rename_i xs hg
+        have hc : clean o (.arr xs) = true := sub_kid hk hx hg
+        simp only [clean] at hc
+        simp [Except.map, er_putK, erList_of_clean o _ (cleanList_v27Host o xs hc)]
+      · simp [Except.map]
+    · simp [Except.map]
+    · simp [Except.map, typeErr]
+  · simp [Except.map]
+  · simp [Except.map, typeErr]
+
+theorem replaceDot_inv {o : Oracles} {es : List (Key × YVal)} (hD : inv o (.obj es) = true) (key : Key)
+    (hx : kIgnored ∉ exc key) {d : YVal} (h : replaceDot (.obj es) key = .ok d) :
+    ∃ es', d = .obj es' ∧ inv o (.obj es') = true := by
+  have hk := fv_sub hD .obj key
+  unfold replaceDot at h
+  dsimp only at h
+  revert h
+  fv_split
+  · rename_i w
+    fv_split
+    · split
+      · rename_i xs hg
+        intro h
+        have hc : clean o (.arr xs) = true := sub_kid hk hx hg
+        simp only [clean] at hc
+        simp [putK] at h
+        refine ⟨_, h.symm, inv_insert hD (subOK_insert hk ?_)⟩
+        simp [hx, clean, cleanList_v27Host o xs hc]
+      · intro h; simp at h; exact ⟨es, h.symm, hD⟩
+    · intro h; simp at h; exact ⟨es, h.symm, hD⟩
+    · intro h; simp [typeErr] at h
+  · intro h; simp at h; exact ⟨es, h.symm, hD⟩
+  · intro h; simp [typeErr] at h
+
+theorem step27_sim (o : Oracles) (es) (h : inv o (.obj es) = true) :
+    Sim o (migrateTo27 (.obj es)) (migrateTo27 (er o (.obj es))) := by
+  have hD := inv_stamp h ((27 : Nat) : Int)
+  simp only [migrateTo27, stamp_obj, stamp_er_obj]
+  rw [replaceDot_er hD kQuerylog (by decide)]
+  cases h1 : replaceDot (.obj (insert kSchemaVersion (.int ((27 : Nat) : Int)) es)) kQuerylog with
+  | error e => simp [Except.map, Sim]
+  | ok d1 =>
+    obtain ⟨es1, rfl, hD1⟩ := replaceDot_inv hD kQuerylog (by decide) h1
+    simp only [Except.map]
+    rw [replaceDot_er hD1 kStatistics (by decide)]
+    cases h2 : replaceDot (.obj es1) kStatistics with
+    | error e => simp [Except.map, Sim]
+    | ok d2 => simp [Except.map, Sim, er_idem]
 
 end AGH.C13
